@@ -54,7 +54,7 @@ PROPS = {
         "engines": [storm(sq=12, st=12), storm("venue", arg="C17:venue", sq=4, st=4)],
         "rule": "each evaluation is one successful deposit (ordinary or through a Kamino / Solend / Drift pass-through instruction; a Drift limit is scaled to the nine-decimal booking unit) / borrow / withdraw judged against limits and deposits>=debt from post-state bytes, or one rejected up-to-limit deposit; the venue engine runs worlds whose pass-through banks carry caps small enough to be reached; distinct = (kind, limit class, grew, up-to-limit, share value != 1, utilisation bucket)",
         "assumptions": COMMON_ASSUMPTIONS + ["a successful deposit that deposited nothing is not judged against the deposit limit"],
-        "floors": {"quick": {"C17.venue_deposits_under_an_active_cap": 200, "ix_rejected/KaminoDeposit/6003": 5, "ix_ok/Deposit": 500, "ix_ok/Borrow": 100, "C17.up_to_limit_deposits_accepted": 50}},
+        "floors": {"quick": {"scen.accounts_left_with_a_dust_debt": 30, "C17.venue_deposits_under_an_active_cap": 200, "ix_rejected/KaminoDeposit/6003": 5, "ix_ok/Deposit": 500, "ix_ok/Borrow": 100, "C17.up_to_limit_deposits_accepted": 50}},
     },
     "C04": {
         "engines": [storm("scen", sq=12, st=12), storm("venue", arg="C04:venue", sq=4, st=4)],
